@@ -22,14 +22,17 @@ Roots = FrozenSet[str]
 FRESH: Roots = frozenset()
 
 # method calls whose result shares storage with the receiver
-VIEW_METHODS = {"reshape", "ravel", "view", "squeeze", "transpose",
+# tocsr / tocsc / tocoo return the object ITSELF when it already has that
+# format (copy=False is the default): may-alias
+VIEW_METHODS = {"tocsr", "tocsc", "tocoo",
+                "reshape", "ravel", "view", "squeeze", "transpose",
                 "swapaxes", "__getitem__", "T", "get", "setdefault",
                 "values", "items", "keys", "tocsr_nocopy"}
 # attribute loads that are views of / members of the receiver's storage
 # (every attribute of an aliased object is treated as reachable storage)
 FRESH_METHODS = {"copy", "astype", "flatten", "tolist", "sum", "max", "min",
-                 "mean", "nonzero", "any", "all", "dot", "toarray", "tocsr",
-                 "tocsc", "tocoo", "tolil", "todense", "diagonal", "conj",
+                 "mean", "nonzero", "any", "all", "dot", "toarray",
+                 "tolil", "todense", "diagonal", "conj",
                  "format", "split", "join", "encode", "decode", "cumsum",
                  "argsort", "argmax", "argmin", "repeat", "round", "clip",
                  "tobytes", "item", "multiply", "power", "tobsr", "todia",
@@ -51,6 +54,16 @@ MUTATORS = {"update", "pop", "popitem", "append", "extend", "insert",
 INPLACE_FUNCS = {"numpy.put": 0, "numpy.place": 0, "numpy.copyto": 0,
                  "numpy.putmask": 0, "numpy.fill_diagonal": 0,
                  "numpy.random.shuffle": 0, "random.shuffle": 0}
+# external routines that bring a sparse matrix operand into canonical form
+# IN PLACE (sum_duplicates / sort_indices on the caller's object) when it is
+# not canonical already - e.g. the matrix rcm() returns, or K @ K
+CANONICALISERS = {"scipy.sparse.linalg.spsolve": 0,
+                  "scipy.sparse.linalg.splu": 0,
+                  "scipy.sparse.linalg.spilu": 0,
+                  "scipy.sparse.linalg.factorized": 0,
+                  # shift-invert with sigma = 0 factorises the operand itself
+                  "scipy.sparse.linalg.eigs": 0,
+                  "scipy.sparse.linalg.eigsh": 0}
 UFUNC_AT = {"numpy.add.at", "numpy.subtract.at", "numpy.multiply.at",
             "numpy.maximum.at", "numpy.minimum.at", "numpy.bitwise_or.at"}
 GLOBAL_STATE_CALLS = {
@@ -547,6 +560,19 @@ class _FunctionPass:
         kw_roots = {k.arg: self.roots(k.value, env) for k in call.keywords}
         dotted = self.an.model.dotted(self.module, f) if not (
             isinstance(f, ast.Name) and f.id in self.locals) else None
+        if dotted is None and isinstance(f, ast.Name):
+            # function-local 'from pkg import name' (also in an enclosing
+            # function of a nested one)
+            if not hasattr(self, "_local_imports"):
+                li = {}
+                scope = getattr(self, "outer_node", None) or self.node
+                for x in ast.walk(scope):
+                    if isinstance(x, ast.ImportFrom) and x.module:
+                        for a_ in x.names:
+                            li[a_.asname or a_.name] = \
+                                f"{x.module}.{a_.name}"
+                self._local_imports = li
+            dotted = self._local_imports.get(f.id)
         # out= keyword
         if "out" in kw_roots and kw_roots["out"]:
             self.effect("out-kw", kw_roots["out"], call,
@@ -557,6 +583,16 @@ class _FunctionPass:
         if dotted in INPLACE_FUNCS and call.args:
             self.effect("inplace-func", arg_roots[INPLACE_FUNCS[dotted]],
                         call, f"{dotted} writes its first argument")
+        if dotted in CANONICALISERS and call.args:
+            a0 = call.args[CANONICALISERS[dotted]]
+            guarded = isinstance(a0, ast.Name) and env.get(
+                "#canonical:" + a0.id)
+            if not guarded:
+                self.effect("inplace-func",
+                            arg_roots[CANONICALISERS[dotted]], call,
+                            f"{dotted} sorts the indices / sums the "
+                            f"duplicates of a non-canonical matrix operand "
+                            f"in place")
         if dotted in UFUNC_AT and call.args:
             self.effect("inplace-func", arg_roots[0], call,
                         f"{dotted} writes its first argument")
@@ -597,6 +633,10 @@ class _FunctionPass:
             if callee is not None and self.depth < self.an.max_depth:
                 return self.apply_summary(callee, call, recv, arg_roots,
                                           kw_roots, env, method=True)
+            if f.attr in ("tocsr", "tocsc", "tocoo") and isinstance(
+                    f.value, ast.Name) and env.get(
+                    f"#notfmt:{f.value.id}:{f.attr[2:]}"):
+                return FRESH          # known to have another format here
             if f.attr in VIEW_METHODS:
                 return recv
             return FRESH
@@ -816,10 +856,40 @@ class _FunctionPass:
         elif isinstance(st, ast.If):
             self.roots(st.test, env)
             e1, e2 = dict(env), dict(env)
+            # X.format != 'csr' (== on the else side): on that branch
+            # X.tocsr() builds a new matrix
+            t0 = st.test
+            if isinstance(t0, ast.Compare) and len(t0.ops) == 1 and \
+                    isinstance(t0.left, ast.Attribute) and \
+                    t0.left.attr == "format" and isinstance(
+                        t0.left.value, ast.Name) and isinstance(
+                        t0.comparators[0], ast.Constant):
+                key = f"#notfmt:{t0.left.value.id}:{t0.comparators[0].value}"
+                if isinstance(t0.ops[0], ast.NotEq):
+                    e1[key] = frozenset({"y"})
+                elif isinstance(t0.ops[0], ast.Eq):
+                    e2[key] = frozenset({"y"})
             self.block(st.body, e1)
             self.block(st.orelse, e2)
             env.clear()
             env.update(self.join(e1, e2))
+            # 'if not X.has_canonical_format: X = X.copy()': afterwards X
+            # is canonical or private - a canonicaliser leaves the caller's
+            # object alone
+            t = st.test
+            if isinstance(t, ast.UnaryOp) and isinstance(t.op, ast.Not) and \
+                    isinstance(t.operand, ast.Attribute) and \
+                    t.operand.attr in ("has_canonical_format",
+                                       "has_sorted_indices") and \
+                    isinstance(t.operand.value, ast.Name) and \
+                    not st.orelse and len(st.body) == 1 and isinstance(
+                        st.body[0], ast.Assign) and src(
+                        st.body[0].targets[0]) == t.operand.value.id and \
+                    isinstance(st.body[0].value, ast.Call) and src(
+                        st.body[0].value.func) == \
+                    t.operand.value.id + ".copy" and \
+                    t.operand.attr == "has_canonical_format":
+                env["#canonical:" + t.operand.value.id] = frozenset({"y"})
         elif isinstance(st, (ast.For, ast.AsyncFor)):
             it = self.roots(st.iter, env)
             it = _unelem(it)
